@@ -32,11 +32,11 @@ BAD = ['K', 'm', 'Hz', 'g']
 LEGACY = {'mJy': 'MJY', 'cgs': 'ergs/cm^2/s'}      # legacy spellings in sed/helpers.py UNIT_MAPPING
 REQUIRED_BRANCHES = (['%s->%s' % (a, b) for a in ('fnu', 'flux', 'lum') for b in ('fnu', 'flux', 'lum')] +
                      ['refused', 'order_nu', 'order_wav', 'apertures_1', 'apertures_5', 'wav_increasing',
-                      'wav_decreasing', 'sed_from_wav_and_nu', 'sed_from_nu_only', 'sed_from_wav_only', 'no_distance_keyword',
+                      'wav_decreasing', 'all_zero_err', 'all_zero_flux', 'all_zero_both', 'refused_all_zero', 'sed_from_wav_and_nu', 'sed_from_nu_only', 'sed_from_wav_only', 'no_distance_keyword',
                       'gz_without_ext', 'gz_with_ext', 'sequential_read', 'sequential_same_ends_other_interior', 'dtype_f4', 'dtype_f8', 'f4_large_luminosity', 'nu_unit_Hz', 'nu_unit_kHz', 'nu_unit_GHz',
                       'nu_unit_THz', 'wav_unit_micron', 'wav_unit_other', 'legacy_units', 'legacy_MJY', 'legacy_ergs', 'err_unit_same', 'err_unit_same_family', 'err_unit_cross_family'] + ['pair_%s_%s' % (a, b) for a in KEYS for b in KEYS])
 ASSUMPTIONS = ['IEEE rounding is not modelled: values compared within 1e-9 relative',
-               'frequencies and distance non-zero, finite positive fluxes',
+               'frequencies and distance non-zero, finite non-negative fluxes and errors (all-zero error columns and all-zero fluxes included: 0 converts to 0 in the requested unit)',
                'a file without a DISTANCE keyword is read as lying at 1 kpc (the reader\'s documented convention); the relations '
                'are then checked with d = sed.distance = 1 kpc',
                'single-precision files: expected values are computed from the float32 numbers actually stored; the result '
@@ -47,7 +47,7 @@ ASSUMPTIONS = ['IEEE rounding is not modelled: values compared within 1e-9 relat
                'the public API: the SED.flux / SED.error setters validate the physical type, so such a file cannot be '
                'written with SED.write; only the target-side refusal is exercised (C15_refuse covers both in the model)']
 EXHAUSTIVE = {'quick': True, 'thorough': True}   # all 5 x 5 unit pairs are enumerated in both tiers
-N = {'quick': 365, 'thorough': 24000}
+N = {'quick': 375, 'thorough': 24000}
 DIST_UNITS = ['kpc', 'pc', 'cm', 'lyr']
 
 
@@ -65,7 +65,7 @@ WAV_UNITS = ['micron', 'nm', 'AA', 'cm', 'mm', 'm']
 
 
 def gen_case(rng, stored=None, requested=None, nap=None, order=None, wdir=None, stored_err=None, legacy=None,
-             dtype=None, big_lum=None, nu_unit=None, wav_unit=None, n_extra=None, gz=None, axes=None, no_distance=None):
+             dtype=None, big_lum=None, nu_unit=None, wav_unit=None, n_extra=None, gz=None, axes=None, no_distance=None, zeros=None):
     free_request = requested is None
     stored = stored or rng.choice(KEYS)
     # the error column carries its own unit in the file; SED validates / writes / reads the two separately
@@ -109,6 +109,12 @@ def gen_case(rng, stored=None, requested=None, nap=None, order=None, wdir=None, 
     aps = sorted({float('%.3g' % nice(rng, 10., 1e5, 3)) for _ in range(nap)})
     while len(aps) < nap:
         aps.append(aps[-1] * 2)
+    # model SEDs without uncertainties carry an all-zero error column; an all-zero flux row / SED is legal too
+    zeros = rng.choice([None] * 5 + ['err', 'err', 'flux', 'both']) if zeros is None else (zeros or None)
+    if zeros in ('err', 'both'):
+        err = [[0. for _ in row] for row in err]
+    if zeros in ('flux', 'both'):
+        flux = [[0. for _ in row] for row in flux]
     # further SED files read one after the other in the same process: same length, end points and units as the
     # first grid but other interior points (and sometimes another length), requested across the F_nu boundary
     extras = []
@@ -151,7 +157,7 @@ def gen_case(rng, stored=None, requested=None, nap=None, order=None, wdir=None, 
                 legacy=bool(rng.random() < 0.25 if legacy is None else legacy),
                 dtype=dtype, big_lum=bool(big_lum),
                 gz=(rng.choice([None, None, None, 'without_ext', 'with_ext']) if gz is None else (gz or None)),
-                axes=axes, no_distance=bool(rng.random() < 0.1 if no_distance is None else no_distance),
+                zeros=zeros, axes=axes, no_distance=bool(rng.random() < 0.1 if no_distance is None else no_distance),
                 nu_unit=nu_unit, wav_unit=wav_unit)
 
 
@@ -163,7 +169,7 @@ def gen_cases(seed, tier):
             rng = case_rng(seed, PID, i)
             yield gen_case(rng, stored=a, requested=b, nap=[1, 5, 2][i % 3], order=['nu', 'wav'][i % 2],
                            wdir=['inc', 'dec'][(i // 2) % 2], stored_err=a, dtype='f8', nu_unit='Hz', wav_unit='micron', gz=False,
-                           axes='both', no_distance=False)
+                           axes='both', no_distance=False, zeros=False)
             i += 1
     # error column stored in another unit than the flux column: all 20 ordered pairs, requested unit cycling
     for a in KEYS:
@@ -199,6 +205,12 @@ def gen_cases(seed, tier):
             yield gen_case(rng, stored=a, stored_err=a, requested=b, nu_unit=nuu, wav_unit=WAV_UNITS[(i + k) % 6],
                            legacy=bool(i % 2))
             i += 1
+    # all-zero error column / flux / both, for supported requests of every family and for a refusal
+    for k, (a, b, z) in enumerate((('mJy', 'cgs', 'err'), ('cgs', 'Jy', 'err'), ('lum', 'mJy', 'err'), ('Jy', 'lum', 'flux'),
+                                   ('SI', 'mJy', 'both'), ('mJy', 'K', 'both'), ('cgs', 'm', 'err'), ('mJy', 'Jy', 'err'))):
+        rng = case_rng(seed, PID, i)
+        yield gen_case(rng, stored=a, stored_err=a, requested=b, zeros=z, dtype=['f8', 'f4'][k % 2])
+        i += 1
     # SEDs defined by `nu` alone (Hz and other frequency units) or by `wav` alone, either spectral order; files without
     # a DISTANCE keyword (read as 1 kpc)
     for k, (ax, nuu, wvu) in enumerate((('nu_only', 'Hz', None), ('nu_only', 'GHz', None), ('nu_only', 'THz', None),
@@ -384,6 +396,8 @@ def run_case(case):
             raised = ex
         if b not in KEYS:
             branches.add('refused')
+            if case.get('zeros'):
+                branches.add('refused_all_zero')
             if want_f is not None:
                 return CaseResult(False, detail='model converted to unsupported unit %s' % b)
             if raised is None:
@@ -414,6 +428,8 @@ def run_case(case):
             return CaseResult(False, violates=True, branches=sorted(branches),
                               detail='SED.read attaches distance %r cm, the file says %r cm%s'
                               % (got_d, d_cm, ' (no DISTANCE keyword: 1 kpc)' if case.get('no_distance') else ''))
+        if case.get('zeros'):
+            branches.add('all_zero_' + case['zeros'])
         if case.get('gz'):
             branches.add('gz_' + case['gz'])
         if case.get('legacy'):
